@@ -1,5 +1,6 @@
 import BPT.Props.C12
 import BPT.C.Errors
+import BPT.C.Gc
 /-
   C13 — the C extension is memory-safe and balances reference counts.
 
@@ -75,6 +76,29 @@ theorem stale_iterator_touches_nothing (s : CState K V) (it : Iter) (h : it.modc
 /-- destroying the tree releases every reference it holds, each exactly once -/
 theorem dealloc_balanced (s : CState K V) : (dealloc s).dec = slots s ∧ (dealloc s).inc = [] :=
   dealloc_releases_all s
+
+/-- **cyclic-GC protocol.** On every valid state `tp_traverse` (`BPlusTree_traverse` → `node_gc_op`, its loops
+    transcribed by index) calls `visit` on exactly the references the tree owns — every key slot, separator slot and
+    value slot once, nothing else, nothing twice — and `tp_clear` releases exactly those, once each, taking none -/
+theorem gc_traverse_exact (s : CState K V) (hi : CInv s) :
+    gcTraverse s = slots s ∧ (gcClear s).dec = slots s ∧ (gcClear s).inc = [] :=
+  ⟨gcTraverse_eq_slots s hi, by rw [gcClear_eq_dealloc s hi]; rfl, rfl⟩
+
+/-- … after every history of calls from the constructor -/
+theorem gc_traverse_exact_along_histories (c : Nat) (h4 : 4 ≤ c) (h16 : c < 2 ^ capacityBits) (ops : List (C12.Op K V)) :
+    ∃ s0 s', (new Cfg.repaired c : Option (CState K V)) = some s0 ∧ (∃ outs, C12.run s0 ops = .ok (s', outs)) ∧
+      gcTraverse s' = slots s' ∧ (gcClear s').dec = slots s' ∧ (gcClear s').inc = [] := by
+  obtain ⟨s0, s', h0, h1, h2⟩ := no_out_of_bounds_along_histories (K := K) (V := V) c h4 h16 ops
+  exact ⟨s0, s', h0, h1, gc_traverse_exact s' h2⟩
+
+/-- the shape part of the invariant is what the loops rely on: with `num_keys` and the value array out of step a slot
+    goes unreported (a leaked cycle) -/
+theorem gc_traverse_needs_shape :
+    gcVisit 0 ({ id := 1, keys := [1, 2], vals := [10], next := noneId } : Leaf Int Nat) ≠
+      slotsOf 0 ({ id := 1, keys := [1, 2], vals := [10], next := noneId } : Leaf Int Nat) ∨
+    gcVisit 0 ({ id := 1, keys := [1], vals := [10, 20], next := noneId } : Leaf Int Nat) ≠
+      slotsOf 0 ({ id := 1, keys := [1], vals := [10, 20], next := noneId } : Leaf Int Nat) :=
+  gcVisit_needs_shape
 
 /-- along any history of assignments and deletions the references the tree has taken and not yet
     released are exactly its slots: nothing leaked, nothing over-released, and `dealloc` then returns to zero -/
